@@ -7,7 +7,7 @@
 #include "../fw/explore.h"
 #include "../fw/hx.h"
 #include "c01_cases.h"
-#include "/repo/src/transmission/bidib_transmission_intern.h"
+#include "src/transmission/bidib_transmission_intern.h"
 #include <stdio.h>
 #include <stdlib.h>
 #include <string.h>
